@@ -3,28 +3,28 @@ import math
 from fractions import Fraction
 from .. import tlc, laws
 from ..common import EXACT_EMBS, DEC_EMBS
-LEVEL = "exploration"
+LEVEL = "model_checking"
 
-RULE = ("Exact anchor: on lattice diagrams with sigma = 1/(8 ln 2) the kernel is k(F,G) = (ln2/pi) * sum 2^-|p-q|^2 - 2^-|p-mirror(q)|^2, "
+RULE = ("M: HeatKernel.tla -- persim.heat as a state machine, exact in integers at sigma = 1/(8 ln 2) (one action per iteration of the double loop, three kernel evaluations, clamped squared norm): PartialIsDef, ResultIsKernelFormula, SquaredNormNonNegative (the clamp only absorbs rounding), ZeroBetweenReorderings, Symmetric, DiagonalPointsIgnored, TranslationInvariant, Triangle (decided on the squares), InputsUntouched, for every pair of lattice diagrams within the constants. R: every pair TLC enumerated, with the numerator of the squared norm, is run through the real function under exact embeddings and decided by TraceHeat.tla with the model's own operators (1e-9). V: Exact anchor: on lattice diagrams with sigma = 1/(8 ln 2) the kernel is k(F,G) = (ln2/pi) * sum 2^-|p-q|^2 - 2^-|p-mirror(q)|^2, "
         "dyadic rationals that MetricLaws.tla evaluates in fixed point; it requires heat^2 * pi / ln2 = K2(F,F)+K2(G,G)-2K2(F,G) (1e-6 "
         "relative, which pins kernel shape, mirrored point and the 1/(8 pi sigma) normalisation), under several embeddings through the "
         "scaling law heat(cF,cG,c^2 sigma) = heat(F,G,sigma)/c. Laws for arbitrary sigma in {0.05..5} and sessions of related diagrams "
         "(reorderings, nearly identical copies, extra diagonal points, diagonal translates, 5..40 points): never NaN / finite / >= 0, zero "
         "between reorderings (<= 1e-6 n / sqrt(8 pi sigma)), symmetry, triangle over all triples, diagonal points ignored, translation "
         "invariance, heat <= W1/(4 sigma sqrt(pi)) with both sides observed. Non-trivial = session with multi-point diagrams; "
-        "evaluations = calls into persim.heat. No state space: level exploration.")
+        "evaluations = calls into persim.heat. ")
 
 
 def run(ctx):
     quick = ctx.tier == "quick"
     ctx.rule = RULE
-    ctx.level = "exploration"
     ctx.assumptions += ["absolute values only on the sigma = 1/(8 ln 2) lattice family (exp becomes a power of two); elsewhere laws",
                         "constants ln 2, pi, sqrt(pi) from the generated Tables.tla"]
     # the only model-level content: the constants the anchor relies on (Tables ASSUMEs) are re-evaluated by TLC here
     r = tlc.run_tlc("TestTables", init="Init", nxt="Next")
     ctx.model("Tables.tla constant relations (ASSUME)", r)
     rng = ctx.rng
+    machine(ctx, quick)
     embs = EXACT_EMBS[:4] + DEC_EMBS[:3]
     specs = []
     sig_anchor = 1.0 / (8.0 * math.log(2.0))
@@ -54,5 +54,75 @@ def run(ctx):
     laws.run_sessions(ctx, specs, "V")
 
 
+HEAT_INVS = ["PartialIsDef", "ResultIsKernelFormula", "SquaredNormNonNegative", "ZeroBetweenReorderings", "Symmetric", "DiagonalPointsIgnored", "TranslationInvariant", "Triangle"]
+
+
+def heat_cases(pairs, embs, results):
+    from ..common import unfl
+    from ..fix import fix
+    cases = []
+    it = iter(results)
+    for (F, G), e in zip(pairs, embs):
+        obs = []
+        for _ in range(2):
+            r = next(it)
+            v = unfl(r["dist"]) if "dist" in r else float("nan")
+            obs.append([0, fix(0)] if (v != v or abs(v) == float("inf")) else [1, fix(Fraction(v) * e.s)])      # heat(cF, cG, c^2 sigma) = heat(F, G, sigma) / c
+        cases.append(dict(F=F, G=G, h=obs[0], hsym=obs[1]))
+    return cases
+
+
+def machine(ctx, quick):
+    import json, os
+    from ..common import mktempdir, run_driver_parallel, EXTREME_EMBS
+    rng = ctx.rng
+    for cst in ([dict(MaxC=2, MaxPts=2)] if quick else [dict(MaxC=2, MaxPts=2), dict(MaxC=3, MaxPts=2), dict(MaxC=2, MaxPts=3)]):
+        r = tlc.run_tlc("HeatKernel", workers=16, constants=cst, invariants=HEAT_INVS, properties=["InputsUntouched"], heap="8g", timeout=14400)
+        ctx.model("HeatKernel (heat as a state machine, exact at sigma = 1/(8 ln 2)) %s" % cst, r, constants=cst)
+    r = tlc.run_tlc("HeatKernel", workers=4, spec="FairSpec", constants=dict(MaxC=1, MaxPts=2), properties=["Termination"], heap="3g")
+    ctx.model("HeatKernel liveness under WF (every call returns)", r)
+    MaxC = 2 if quick else 3
+    dump = os.path.join(mktempdir(prefix="heatdump_"), "dump.json")
+    r = tlc.run_tlc("HeatKernel", workers=1, env={"DUMP_FILE": dump}, init="DumpInit", nxt="Next", constants=dict(MaxC=MaxC, MaxPts=2), heap="6g")
+    if r["error"] or not os.path.exists(dump):
+        ctx.machinery_errors.append("HeatKernel dump failed:\n" + r["out"][-1500:]); return
+    dumped = json.load(open(dump)); os.remove(dump)
+    ctx.extra["spec_generated_heat_pairs"] = len(dumped)
+    rng.shuffle(dumped)
+    sel = dumped[: (900 if quick else 12000)]
+    embs_all = EXACT_EMBS + EXTREME_EMBS[:1]
+    pairs = [(c["F"], c["G"]) for c in sel]
+    embs = [embs_all[t % len(embs_all)] for t in range(len(pairs))]
+    sig0 = 1.0 / (8.0 * math.log(2.0))
+    jobs = []
+    for (F, G), e in zip(pairs, embs):
+        sf = float(e.s) ** 2 * sig0
+        for a, b in ((F, G), (G, F)):
+            jobs.append(dict(fn="heat", S=[[e.f(x), e.f(y)] for x, y in a], T=[[e.f(x), e.f(y)] for x, y in b], sigma=sf, matching=False))
+    results, _ = run_driver_parallel("distances.py", jobs, nproc=12)
+    cases = heat_cases(pairs, embs, results)
+    verdicts, st = tlc.run_batch("TraceHeat", cases, nproc=12, constants=dict(MaxC=MaxC), heap="3g")
+    ctx.extra.setdefault("trace_validation_runs", []).append(dict(label="R-heat", cases=len(cases), tlc_states=st["states"], wall_s=round(st["wall"], 1)))
+    for (F, G), e, c, v in zip(pairs, embs, cases, verdicts):
+        ctx.count(2, key=("heatR", str(F), str(G), e.name), nontrivial=len(F) + len(G) >= 2)
+        if v[2] == "ok":
+            ctx.ok_trace()
+        else:
+            ctx.failure({"clause": v[3], "fn": "heat", "numerator_over_2^R": v[4]}, {"kind": "heatR", "F": F, "G": G, "emb": e.name, "MaxC": MaxC})
+
+
 def replay(ctx, rec):
+    c = rec["case"]
+    if c.get("kind") == "heatR":
+        from ..common import run_driver, EXTREME_EMBS
+        e = next(x for x in EXACT_EMBS + EXTREME_EMBS if x.name == c["emb"])
+        sf = float(e.s) ** 2 / (8.0 * math.log(2.0))
+        jobs = [dict(fn="heat", S=[[e.f(x), e.f(y)] for x, y in a], T=[[e.f(x), e.f(y)] for x, y in b], sigma=sf, matching=False) for a, b in ((c["F"], c["G"]), (c["G"], c["F"]))]
+        res = run_driver("distances.py", {"jobs": jobs})["results"]
+        v, _ = tlc.run_batch("TraceHeat", heat_cases([(c["F"], c["G"])], [e], res), nproc=1, constants=dict(MaxC=c["MaxC"]))
+        if v[0][2] == "ok":
+            ctx.ok_trace()
+        else:
+            ctx.failure({"clause": v[0][3]}, c)
+        return
     laws.replay(ctx, rec)
